@@ -22,7 +22,7 @@ def run(pid, tier, seed):
     mk = vlib.build_harness("make", ["make.cxx"])
     un = vlib.build_harness("unify", ["unify.cxx"])
     stx = vlib.build_harness("strings", ["strings.cxx"], cfg="asan")
-    tdir = os.path.join(vlib.BUILD, "traces")
+    tdir = vlib.trace_dir()
     os.makedirs(tdir, exist_ok=True)
     jobs = []
     for k in range(3 if q else 8):
